@@ -437,6 +437,36 @@ def run_laws(task):
                         if got != ref:
                             note("cli-does-not-win:" + o, "--%s=%s gives %r, but %r once the built-in feature %s is enabled "
                                  "(%s, %s)" % (o, v, ref, got, f, form, cfgmode), a, env)
+        elif which == "gcp" and cfgmode == "config":
+            # `git -c delta.K=V` (GIT_CONFIG_PARAMETERS) means what `K = V` in the [delta] section means - also for
+            # git's other spellings of booleans and for an empty value - and overrides what the file says
+            cfg2 = os.path.join(home, "kv.gitconfig")
+            cfg3 = os.path.join(home, "opposite.gitconfig")
+            for key, vals, opposite in (("navigate", ["yes", "on", "1", "True", "no", "off", "0", "FALSE"], None),
+                                        ("side-by-side", ["yes", "no"], None),
+                                        ("keep-plus-minus-markers", ["on", "off"], None),
+                                        ("file-added-label", [""], "x"), ("file-modified-label", [""], "y")):
+                for v in vals:
+                    with open(cfg2, "w") as f:
+                        f.write("[delta]\n    %s = %s\n" % (key, v))
+                    opp = opposite if opposite is not None else \
+                        ("false" if v.lower() in ("yes", "on", "1", "true") else "true")
+                    with open(cfg3, "w") as f:
+                        f.write("[delta]\n    %s = %s\n" % (key, opp))
+                    b0 = ["--paging=never", "--detect-dark-light=never", "--dark"]
+                    ref = sc(b0 + ["--config=" + cfg2])
+                    for fmt in ("'delta.%s=%s'", "'delta.%s'='%s'"):
+                        env = {"git_config_parameters": fmt % (key, v)}
+                        for label, cf in (("empty file", cfg), ("file says the opposite", cfg3)):
+                            got = sc(b0 + ["--config=" + cf], env)
+                            n += 1
+                            distinct.add((key, v, label))
+                            diff = sorted(k for k in ref if ref.get(k) != got.get(k))
+                            if diff:
+                                note("gcp-value-not-honoured:" + key, "GIT_CONFIG_PARAMETERS %s (%s) gives %s = %r; `%s = %s` in "
+                                     "the [delta] section gives %r" % (env["git_config_parameters"], label, diff[0],
+                                                                      got.get(diff[0]), key, v, ref.get(diff[0])),
+                                     b0 + ["--config=" + cf], env)
         elif which == "three-ways":
             # a built-in feature is the same feature however it is enabled: by its flag, by --features, by
             # DELTA_FEATURES (features it enables in turn included)
@@ -524,7 +554,7 @@ def main(tier):
     tasks = [(seeds, cases[i:i + step], deadline) for i in range(0, len(cases), step)]
     res = explore.pmap(run_task, tasks)
     dres = explore.pmap(run_determinism, [(list(range(8 if tier == "quick" else 32)), deadline)])
-    lres = explore.pmap(run_laws, [("cli-wins", deadline), ("last-listed", deadline), ("independence", deadline), ("three-ways", deadline)])
+    lres = explore.pmap(run_laws, [("cli-wins", deadline), ("last-listed", deadline), ("independence", deadline), ("three-ways", deadline), ("gcp", deadline)])
     n = sum(r["n"] for r in res)
     orders = set()
     distinct = set()
